@@ -111,11 +111,26 @@ def gen(rng, tier):
                 tt = Fr(rng.choice([0, 1]))
                 s.loads.append({"kind": "c", "term": "fx", "local": False, "bar": b["id"], "t": tt, "v": Fr(rng.choice([20, -35]))})
                 s.loads.append({"kind": "c", "term": "fy", "local": True, "bar": b["id"], "t": tt, "v": Fr(rng.choice([-30, 45]))})
+        if g % 4 == 1:
+            # a load a hair off the middle between two uniform cuts: the two finite elements beside it are almost, not
+            # exactly, as long as each other - and come in the other order when the bar is drawn from its other end
+            cand = [b for b in s.bars if b["l1"][2] or b["l2"][2]] or s.bars
+            b = cand[(g // 4) % len(cand)]
+            tt = Fr(rng.choice(["0.2502", "0.6497", "0.4501", "0.8499"]))
+            if all(abs(tt - x) > Fr("0.0015") for l in s.loads if l["bar"] == b["id"] for x in ([l["t"]] if l["kind"] == "c" else [l["t0"], l["t1"]])):
+                s.loads.append({"kind": "c", "term": "fy", "local": True, "bar": b["id"], "t": tt, "v": Fr(rng.choice([-900, 1500]))})
+                near_mid = b["id"]
+            else:
+                near_mid = None
+        else:
+            near_mid = None
         iso = isotropic(s)
         rots = ROTS if iso else [r for r in ROTS if r[0] == 0 or r[1] == 0]
         cr, sr = rng.choice(rots)
         dx, dy = Fr(rng.choice(["1000", "-37.5", "123456", "0.125"])), Fr(rng.choice(["-2000", "14.25", "999999", "0"]))
         rev = [b["id"] for b in s.bars if rng.random() < 0.5] or [s.bars[0]["id"]]
+        if near_mid and near_mid not in rev:
+            rev.append(near_mid)
         if g % 2 == 0:
             # every other group for sure: a force with a component normal to the bar applied on a supported bar end,
             # and that bar among the reversed ones (what goes straight into the support must not depend on which end it is)
